@@ -173,7 +173,7 @@ def check(model, tier):
                         if s.kind == "case" and s.value and src(s.node.pattern).startswith("Join"):  # type: ignore[union-attr]
                             from ..astutil import pattern_captures
 
-                            prs = [n for n, acc in pattern_captures(s.node.pattern).items() if acc == ("predicate",)]  # type: ignore[union-attr]
+                            prs = [n for n, acc in pattern_captures(s.node.pattern).items() if acc == ("predicate",)] + [f"{src(s.subject)}.predicate"]  # type: ignore[union-attr]
                             if any(fct.kind == "IS" and fct.polarity and set(fct.args) in [{"False", f"{x}.as_trivial()"} for x in prs] for fct in facts):
                                 witness = witness or "trivially false join predicate"
             if witness:
